@@ -26,9 +26,9 @@ def tla_set(xs):
 
 
 def cfg_common(p):
-    return ("SPECIFICATION Spec\nCONSTANTS\n  Seed = %d\n  Orders = %s\n  RawSets = %s\n  MultiSets = %s\n  RotElems = %s\n  RCoefs = %s\n"
+    return ("SPECIFICATION Spec\nCONSTANTS\n  Seed = %d\n  Orders = %s\n  RawSets = %s\n  MultiSets = %s\n  RotElems = %s\n  RCoefs = %s\n  TailSets = %s\n"
             % (p["seed"], tla_set(p["orders"]), tla_set(p["rawsets"]), tla_set(p["multisets"]), tla_set(p["rotelems"]),
-               tla_set(p["rcoefs"])))
+               tla_set(p["rcoefs"]), tla_set(p["tailsets"])))
 
 
 def run_harness_sharded(exe, datap, casesp, outbase, nshards, ncases):
@@ -258,6 +258,10 @@ def explore(ck, plan, stats, workers):
                 stats["elements"] += f["n"]
             for a in ob["alg"]:
                 stats["alg"][k + ":" + a["name"]] += 1
+            if st["op"] in ("fit", "support") and ob.get("tailcfg") in ("L", "U", "LU") and ob.get("err") == 0 and not ob.get("reused", False):
+                stats["hermite_tail_states"][ob["tailcfg"]] += 1
+            if ob.get("ntail", 0) > 0:
+                stats["tail_elements"][k + ":" + st["op"]] += ob["ntail"]
             if "rt" in ob:
                 stats["roundtrip_steps"][k] += 1
                 if ob["rt"]["n"] > 0 and (i_ + 1) in blocksteps[r["id"]]:
@@ -297,25 +301,26 @@ def run(tier):
     workers = int(os.environ.get("VERIF_C18_WORKERS", "6"))
     seed = vlib.seed() % 1000
     full = dict(orders=[5, 12, 20, 40], rawsets=["skew", "ties", "tsel"], multisets=["m1", "m2", "m3"],
-                rotelems=[1, 2, 3, 4, 5, 6, 7, 8, 9, 10, 11], rcoefs=[100, 90, 70, 50], kinds=ALL_KINDS)
+                rotelems=[1, 2, 3, 4, 5, 6, 7, 8, 9, 10, 11], rcoefs=[100, 90, 70, 50], tailsets=["upsk", "losk", "bosk"], kinds=ALL_KINDS)
     plans = []
     if tier == "quick":
         plans.append(dict(full, tag="len3", seed=seed, maxlen=3))
         # copy / re-fit aliasing needs four steps: one order, two data sets
-        plans.append(dict(full, tag="len4small", seed=seed + 1, maxlen=4, orders=[20], rawsets=["skew", "tsel"],
+        plans.append(dict(full, tag="len4small", seed=seed + 1, maxlen=4, orders=[12], rawsets=["skew", "tsel"], tailsets=["upsk"],
                           multisets=["m2", "m3"], rotelems=[2, 5, 7, 10], rcoefs=[100, 70], kinds=["AH", "AE", "PCA", "MAF", "ROT"]))
     else:
-        plans.append(dict(full, tag="len4hermite", seed=seed, maxlen=4, orders=[5, 12, 20, 30, 40], kinds=["AH"]))
+        plans.append(dict(full, tag="len4hermite", seed=seed, maxlen=4, orders=[5, 12, 20, 30, 40], rawsets=["skew", "tsel"], kinds=["AH"]))
         plans.append(dict(full, tag="len4others", seed=seed, maxlen=4, kinds=["AE", "PCA", "MAF", "NS", "ROT"]))
         plans.append(dict(full, tag="len5small", seed=seed + 1, maxlen=5, orders=[20], rawsets=["tsel"], multisets=["m2"],
-                          rotelems=[2, 5, 7, 10], rcoefs=[100, 50]))
+                          rotelems=[2, 5, 7, 10], rcoefs=[100, 50], tailsets=[]))
         for d in range(2, 6):
             plans.append(dict(full, tag="len3s%d" % d, seed=seed + d, maxlen=3, orders=[5, 8, 12, 20, 30, 40]))
     stats = {"cases": collections.Counter(), "ops": collections.Counter(), "refits": collections.Counter(),
              "forms": collections.Counter(), "alg": collections.Counter(), "mono": collections.Counter(),
              "same": collections.Counter(), "fresh": collections.Counter(), "exact": collections.Counter(),
              "roundtrips": collections.Counter(), "roundtrip_steps": collections.Counter(),
-             "roundtrip_block_support": collections.Counter(), "worst": {}, "elements": 0, "mono_elements": 0, "comparisons": 0, "nontrivial": 0}
+             "roundtrip_block_support": collections.Counter(), "hermite_tail_states": collections.Counter(),
+             "tail_elements": collections.Counter(), "worst": {}, "elements": 0, "mono_elements": 0, "comparisons": 0, "nontrivial": 0}
     for p in plans:
         explore(ck, dict(p, exe=exe), stats, workers)
     if os.environ.get("VERIF_C18_DUMP"):      # development aid: all unlisted disagreements, one per line
@@ -331,7 +336,9 @@ def run(tier):
         need.append(("same", k))
     need += [("mono", "AH:fwd"), ("mono", "AH:inv"), ("mono", "AE:fwd"), ("mono", "AE:inv"), ("mono", "NS:fwd"),
              ("alg", "AH:hermite-gram"), ("ops", "AH:support"), ("forms", "AH:anamPointToBlock-coeff"),
-             ("alg", "AH:variance->r->variance"), ("roundtrip_block_support", "AH"), ("alg", "PCA:z2f'Cz2f=I"), ("alg", "MAF:z2f'Cz2f=I"), ("alg", "ROT:RinvR=I"),
+             ("alg", "AH:variance->r->variance"), ("roundtrip_block_support", "AH"),
+             ("hermite_tail_states", "L"), ("hermite_tail_states", "U"), ("hermite_tail_states", "LU"),
+             ("tail_elements", "AH:fwd"), ("tail_elements", "AH:inv"), ("alg", "AH:tails-inverse"), ("alg", "PCA:z2f'Cz2f=I"), ("alg", "MAF:z2f'Cz2f=I"), ("alg", "ROT:RinvR=I"),
              ("forms", "AH:db-name"), ("forms", "AE:db-locator"), ("forms", "PCA:public-matrices"), ("forms", "NS:db-name"),
              ("forms", "ROT:angles")]
     for cat, key in need:
@@ -345,6 +352,8 @@ def run(tier):
     ck.cov["algebraic_identities_evaluated"] = dict(stats["alg"])
     ck.cov["monotonicity_checks"] = dict(stats["mono"])
     ck.cov["round_trips_back_to_a_data_set"] = dict(stats["roundtrips"])
+    ck.cov["hermite_fitted_states_by_tail_configuration"] = dict(stats["hermite_tail_states"])
+    ck.cov["elements_compared_in_linear_tails"] = dict(stats["tail_elements"])
     ck.cov["per_step_round_trips"] = dict(stats["roundtrip_steps"])
     ck.cov["per_step_round_trips_in_block_support_state"] = dict(stats["roundtrip_block_support"])
     ck.cov["worst_accepted_error_x100_log10"] = dict(sorted(stats["worst"].items()))
